@@ -818,3 +818,146 @@ func ruleTempFilePairing(c *Ctx, rule string) {
 		c.und(rule, "morass/TempFile", token.NoPos, "no temporary-file creation found in package morass")
 	}
 }
+
+// ---- running end: the span-merge test reads what the merge branch updates -------
+
+// ruleRunningEnd: in sequtils.Stitch the branch that extends the current
+// span stores span.e = max(span.e, f.End()); the test that decides between
+// extending and opening a new span must compare the next start with that
+// running end. Comparing with the previous feature's end instead opens a
+// new span inside a region an earlier, longer feature already covers, and
+// its letters are emitted twice.
+func ruleRunningEnd(c *Ctx, rule string) {
+	fn := c.fn("seq/sequtils", "Stitch")
+	n := 0
+	for _, b := range fn.Blocks {
+		for _, ins := range b.Instrs {
+			st, ok := ins.(*ssa.Store)
+			if !ok {
+				continue
+			}
+			fa, ok := st.Addr.(*ssa.FieldAddr)
+			if !ok {
+				continue
+			}
+			call, ok := st.Val.(*ssa.Call)
+			if !ok || call.Call.StaticCallee() == nil || call.Call.StaticCallee().Name() != "max" {
+				continue
+			}
+			n++
+			key := fmt.Sprintf("sequtils.Stitch/merge-test-reads-running-end#%d", n)
+			sameField := func(v ssa.Value) bool {
+				u, ok := v.(*ssa.UnOp)
+				if !ok || u.Op != token.MUL {
+					return false
+				}
+				f2, ok := u.X.(*ssa.FieldAddr)
+				return ok && f2.Field == fa.Field && types.Identical(f2.X.Type(), fa.X.Type())
+			}
+			found := false
+			for _, bf := range branchesAt(b) {
+				if sameField(bf.cond.X) || sameField(bf.cond.Y) {
+					found = true
+				}
+			}
+			if found {
+				c.ok(rule, key, st.Pos(), "the extend-or-open test compares against the running end that this branch updates")
+			} else {
+				c.bad(rule, key, st.Pos(), "the branch that extends the current span updates its running end with max(), but the test that selects this branch never reads that running end: a feature nested in a longer one resets the comparison, so a later feature still inside the longer one opens a new span and its letters are stitched twice")
+			}
+		}
+	}
+	if n == 0 {
+		c.und(rule, "sequtils.Stitch/merge-test-reads-running-end", fn.Pos(), "no running-end update (x.e = max(...)) found")
+	}
+}
+
+// ---- bijection: NewPairing checks the involution for both definition strings ----
+
+func ruleBijection(c *Ctx, rule string) {
+	fn := c.fn("alphabet", "NewPairing")
+	pkg := modPath + "/alphabet"
+	if len(fn.Params) != 2 {
+		c.und(rule, "alphabet.NewPairing/params", fn.Pos(), "expected two definition strings")
+		return
+	}
+	var origin func(v ssa.Value, d int) *ssa.Parameter
+	origin = func(v ssa.Value, d int) *ssa.Parameter {
+		if d > 8 {
+			return nil
+		}
+		switch x := v.(type) {
+		case *ssa.Parameter:
+			return x
+		case *ssa.Convert:
+			return origin(x.X, d+1)
+		case *ssa.ChangeType:
+			return origin(x.X, d+1)
+		case *ssa.Extract:
+			if nx, ok := x.Tuple.(*ssa.Next); ok {
+				if r, ok := nx.Iter.(*ssa.Range); ok {
+					return origin(r.X, d+1)
+				}
+			}
+		case *ssa.Lookup:
+			return origin(x.X, d+1)
+		case *ssa.Index:
+			return origin(x.X, d+1)
+		case *ssa.UnOp:
+			if x.Op == token.MUL {
+				if ia, ok := x.X.(*ssa.IndexAddr); ok {
+					return origin(ia.X, d+1)
+				}
+			}
+		case *ssa.Phi:
+			for _, e := range x.Edges {
+				if p := origin(e, d+1); p != nil {
+					return p
+				}
+			}
+		}
+		return nil
+	}
+	pairLoad := func(v ssa.Value) (idx ssa.Value, ok bool) { // v = p.pair[idx]
+		u, isU := v.(*ssa.UnOp)
+		if !isU || u.Op != token.MUL {
+			return nil, false
+		}
+		ia, isIA := u.X.(*ssa.IndexAddr)
+		if !isIA || !loadOfField(ia.X, pkg, "Pairing", "pair") {
+			return nil, false
+		}
+		return ia.Index, true
+	}
+	seen := map[*ssa.Parameter]bool{}
+	n := 0
+	for _, b := range fn.Blocks {
+		ifi, ok := b.Instrs[len(b.Instrs)-1].(*ssa.If)
+		if !ok {
+			continue
+		}
+		bo, ok := ifi.Cond.(*ssa.BinOp)
+		if !ok || (bo.Op != token.NEQ && bo.Op != token.EQL) {
+			continue
+		}
+		for _, side := range []ssa.Value{bo.X, bo.Y} {
+			if i1, ok := pairLoad(side); ok {
+				if i2, ok := pairLoad(stripConv(i1)); ok { // pair[pair[x]]
+					if p := origin(stripConv(i2), 0); p != nil {
+						seen[p] = true
+						n++
+					}
+				}
+			}
+		}
+	}
+	for _, prm := range fn.Params {
+		key := "alphabet.NewPairing/involution-checked-for-" + prm.Name()
+		if seen[prm] {
+			c.ok(rule, key, fn.Pos(), "pair[pair[x]] == x is tested for the letters of this definition string")
+		} else {
+			c.bad(rule, key, fn.Pos(), "the round trip pair[pair[x]] == x is not tested for the letters of definition string "+prm.Name()+": one-directional or many-to-one pairings such as (\"ac\",\"tg\") or (\"ab\",\"cc\") are accepted, and their complement is not an involution")
+		}
+	}
+	_ = n
+}
